@@ -12,7 +12,7 @@ import (
 
 // C13 — The client never settles on a protocol version it did not advertise.
 func TestC13(t *testing.T) {
-	r := mon.New("C13", "targets (parrots, Golang, randomized, custom) x server version ranges (max 1.0..1.3) x {normal negotiation, legacy server that negotiates from legacy_version only (hook H2)} x downgrade sentinel {default, forced, suppressed} (hook H3): if the client completes at version V then V is in the set advertised on the wire (supported_versions minus GREASE, else [spec minimum .. legacy_version]); a client that advertised TLS 1.3 never completes a <=1.2 handshake whose ServerHello random carries the RFC 8446 sentinel. distinct = (target family, server max, mode, canary, outcome)")
+	r := mon.New("C13", "targets (parrots, Golang, randomized, custom) x server version ranges (max 1.0..1.3) x {normal negotiation, legacy server that negotiates from legacy_version only (hook H2)} x downgrade sentinel {default, forced, suppressed} (hook H3) x {first visit, returning client whose hello offers a cached TLS 1.2 ticket / TLS 1.3 PSK}: if the client completes at version V then V is in the set advertised on the wire (supported_versions minus GREASE, else [spec minimum .. legacy_version]); a client that advertised TLS 1.3 never completes a <=1.2 handshake whose ServerHello random carries the RFC 8446 sentinel. distinct = (target family, server max, mode, canary, outcome)")
 	defer r.Finish(t)
 	var targets []Target
 	targets = append(targets, ParrotTargets(true)...)
@@ -28,6 +28,9 @@ func TestC13(t *testing.T) {
 		legacy bool
 		canary int
 		o      Offer
+		// returning: the client first visits a well-behaved TLS 1.2 / 1.3 server with a shared
+		// session cache, so that the adversarial connection offers a session
+		returning bool
 	}
 	var jobs []job
 	for _, tg := range targets {
@@ -45,7 +48,10 @@ func TestC13(t *testing.T) {
 					if max == tls.VersionTLS13 && canary != 0 {
 						continue
 					}
-					jobs = append(jobs, job{tg, max, legacy, canary, o})
+					jobs = append(jobs, job{tg, max, legacy, canary, o, false})
+					if canary == 0 || legacy {
+						jobs = append(jobs, job{tg, max, legacy, canary, o, true})
+					}
 				}
 			}
 		}
@@ -56,10 +62,38 @@ func TestC13(t *testing.T) {
 		scfg := peer.ServerConfig()
 		scfg.MaxVersion = j.max
 		plan := &tls.VerifPlan{LegacyVersionNegotiation: j.legacy, Canary: j.canary}
-		h := RunCase(j.t, GridCase{Server: scfg, Plan: plan}, "example.test", nil, peer.Opts{NoEcho: true})
+		var extra func(c *tls.Config)
+		offered := false
+		if j.returning {
+			cache := tls.NewLRUClientSessionCache(4)
+			extra = func(c *tls.Config) {
+				c.ClientSessionCache = cache
+				c.PreferSkipResumptionOnNilExtension = true
+			}
+			warm := peer.ServerConfig()
+			if j.max < tls.VersionTLS13 {
+				warm.MaxVersion = tls.VersionTLS12
+			}
+			h0 := RunCase(j.t, GridCase{Server: warm, Dim: "warmup"}, "example.test", extra, peer.Opts{})
+			if !h0.OK() {
+				r.Count("warmup_failed", 1)
+			}
+		}
+		h := RunCase(j.t, GridCase{Server: scfg, Plan: plan}, "example.test", extra, peer.Opts{NoEcho: true})
 		mode := "normal"
 		if j.legacy {
 			mode = "legacy"
+		}
+		if j.returning {
+			mode += "+returning"
+			for _, hm := range wire.ClientHellos(h.C2S) {
+				if ch, err := wire.ParseClientHello(hm); err == nil && (len(ch.Ticket) > 0 || len(ch.PSKIds) > 0) {
+					offered = true
+				}
+			}
+			if offered {
+				r.Count("returning_client_offered_a_session", 1)
+			}
 		}
 		sig := map[string]string{"target": family(j.t.Name), "server_max": fmt.Sprintf("%04x", j.max), "mode": mode, "canary": fmt.Sprint(j.canary)}
 		rep := map[string]any{"case": i, "target": j.t.Name, "server_max": j.max, "legacy": j.legacy, "canary": j.canary, "err": h.ErrString(), "advertised": fmt.Sprintf("%04x", j.o.Versions)}
@@ -119,4 +153,5 @@ func TestC13(t *testing.T) {
 	r.Floor("completed", 300)
 	r.Floor("sentinel_rejected", 50)
 	r.Floor("unadvertised_version_rejected", 50)
+	r.Floor("returning_client_offered_a_session", 100)
 }
